@@ -24,7 +24,10 @@ RULE = ('Write direction: Hypothesis files (channel messages in runs and broken 
         'bytes replaced by 128..255 (not the first data byte of a running-status event, not a leading F0 of a sysex '
         'payload): clip=False raises OSError/ValueError, clip=True equals the expectation with those bytes = 127. '
         'Non-trivial: write = a running-status opportunity and a meta/sysex between two equal-status channel messages; '
-        'read = running status used, a padded VLQ or a long header. Distinct by hash of the case.')
+        'read = running status used, a padded VLQ or a long header. Distinct by hash of the case.'
+        ' Later additions: arbitrary bytes that the strict decoder accepts as conformant must load to the decoded'
+        ' events (seed files in quick, structure-aware atheris campaign in thorough); debug output to an'
+        ' ASCII-only sink when all texts are ASCII; chunks > 1 MiB.')
 ASSUMPTIONS = ['reference encoder/decoder lib/refsmf.py follow the SMF 1.0 specification',
                'deltas are kept <= 0x0FFFFFFF so that every VLQ fits the 4-byte limit of the standard']
 
